@@ -3,6 +3,7 @@ import AmaranthVerif.Model.Expr
 import AmaranthVerif.Spec.Denote
 import AmaranthVerif.Model.Assign
 import AmaranthVerif.Spec.AssignSpec
+import AmaranthVerif.Spec.Derived
 
 /-! # Reading expressions from the line protocol (unverified I/O glue) -/
 
@@ -85,6 +86,42 @@ def handleExpr : Sexp → Option String
       let outs := es.map fun env =>
         s!"rtl={norm sh (evalRtl ctx env ex)} old={norm sh (evalRtlUnfixed ctx env ex)} tb={evalTb ctx env ex} spec={denote ctx env ex}"
       some (s!"eval {showShape sh} wf={if ex.wf ctx then 1 else 0} ; " ++ " ; ".intercalate outs)
+  | _ => none
+
+def parseMPat : Sexp → Option MPat
+  | .list [.atom "i", k] => do some (.int (← toInt? k))
+  | .atom s => do some (.bits (← parsePat s))
+  | _ => none
+
+def parseDOp : Sexp → Option DOp
+  | .list [.atom "abs"] => some .abs
+  | .list [.atom "shl", n] => do some (.shiftLeft (← toInt? n))
+  | .list [.atom "shr", n] => do some (.shiftRight (← toInt? n))
+  | .list [.atom "rol", n] => do some (.rotateLeft (← toInt? n))
+  | .list [.atom "ror", n] => do some (.rotateRight (← toInt? n))
+  | .list [.atom "rep", k] => do some (.replicate (← toNat? k))
+  | .list (.atom "matches" :: ps) => do some (.matches (← ps.mapM parseMPat))
+  | .list [.atom "mux"] => some .mux
+  | .list [.atom "array"] => some .arrayIndex
+  | .list [.atom "index", i] => do some (.index (← toInt? i))
+  | .list [.atom "slicestep", a, b, c] => do some (.sliceStep (← toInt? a) (← toInt? b) (← toInt? c))
+  | _ => none
+
+/-- `(derived op ctx (operands e*) env*)` → `derived <w> <u|s> ; v ; v …` (the Spec value per env), or `derived none` -/
+def handleDerived : Sexp → Option String
+  | .list (.atom "derived" :: o :: c :: .list (.atom "operands" :: es) :: envs) => do
+      let op ← parseDOp o
+      let ctx ← parseCtx c
+      let exprs ← es.mapM (parseExpr ctx)
+      let envl ← envs.mapM parseEnv
+      let outs := envl.map fun env => derived op (exprs.map fun e => (shapeOf ctx e, denote ctx env e))
+      match outs with
+      | [] => some "derived empty"
+      | first :: _ =>
+        match first with
+        | none => some "derived none"
+        | some (sh, _) =>
+          some (s!"derived {showShape sh} ; " ++ " ; ".intercalate (outs.map fun r => match r with | some (_, v) => toString v | none => "none"))
   | _ => none
 
 def showEnv (e : Env) : String := ",".intercalate (e.map toString)
